@@ -22,7 +22,7 @@ EXPLANATION = "symbolic execution of one/k session calls; post-conditions from a
 PROPS = ("C12",)
 
 
-DRAIN_OPS = {"client": ["extended", "search", "drain", "drain_none"], "server": ["recv_extended_request", "recv_search_request", "extended_response", "search_entry", "drain", "drain_none"]}
+DRAIN_OPS = {"client": ["extended", "search", "search_unencodable", "drain", "drain_none"], "server": ["recv_extended_request", "recv_search_request", "extended_response", "search_entry", "drain", "drain_none"]}
 
 
 def units(tier):
